@@ -195,6 +195,12 @@ Theorem C14_known_classb_sound : forall ST st n c cols,
   known_classb ST st n c cols = true -> KnownClass ST st c cols.
 Proof. exact known_classb_sound. Qed.
 
+(* second shape of F17 (the node's answer at PREPARATION announced other columns and was discarded by
+   Session::prepare): the class the driver computes for it *)
+Theorem C14_known_class_prepb_sound : forall pa ext uc cols,
+  known_class_prepb pa ext uc cols = true -> KnownClassPrep pa ext uc cols.
+Proof. exact known_class_prepb_spec. Qed.
+
 Theorem C14_quadrant_dec : forall ext uc, quadrantb ext uc = true <-> Quadrant ext uc.
 Proof. exact quadrantb_spec. Qed.
 
@@ -896,6 +902,41 @@ Proof.
   - intros [H _ _]. specialize (H 0%nat). discriminate H.
 Qed.
 
+(* second shape of F17 and the per-node bookkeeping of the nodes without the extension: accepting and
+   rejecting instances *)
+Example C14_ex_known_class_prep :
+  known_class_prepb [cA; cB] false true cA = true /\      (* a node announced cB at preparation, decoded with cA *)
+  known_class_prepb [cA; cA] false true cA = false /\     (* every node announced what was decoded with *)
+  known_class_prepb [cA; []] false true cA = false /\     (* an announcement without columns does not count *)
+  known_class_prepb [cA; cB] true true cA = false /\      (* extension on: never *)
+  known_class_prepb [cA; cB] false false cA = false /\    (* cached metadata off: never *)
+  ~ KnownClassPrep [cA; cA] false true cA /\ KnownClassPrep [cA; cB] false true cA.
+Proof.
+  repeat split; try reflexivity.
+  - intros [_ [c' [[E|[E|[]]] [_ N]]]]; subst c'; now apply N.
+  - exists cB. split; [right; left; reflexivity|]. split; discriminate.
+Qed.
+
+Example C14_ex_plain_node_check :
+  let fne := mk_exec_frame (exST 0) false (exArgs true) (exInit false 0) in
+  let rowsB := RRows (mkRows (RM_none 3) None 1 (p_cells payB)) in
+  let obs (c : list col) := OB_rows c None None false in
+  let u := RUnprepared (s_id (exST 0)) in
+  let pB := RPrepared (s_id (exST 0)) (meta_of_cols None cB) in
+  let an (c : list col) : nat -> nat -> list col * bool := fun _ _ => (c, false) in
+  (* node 1 announced cB at preparation, its rows are decoded with the kept cA: second shape *)
+  plain_node_check exST 1 (an cB) 0 [TO_exec 1 false (exArgs true) [exX (Q_execute fne) rowsB cB] (obs cA)] = [(0%nat, false)] /\
+  (* it announced cA at preparation and cB in a re-preparation: first shape *)
+  plain_node_check exST 1 (an cA) 0
+    [TO_exec 1 false (exArgs true) [exX (Q_execute fne) u []; exX (Q_prepare (s_text (exST 0))) pB []; exX (Q_execute fne) rowsB cB] (obs cA)]
+    = [(0%nat, true)] /\
+  (* decoded with what the node announced: clean; a node WITH the extension is not looked at *)
+  plain_node_check exST 1 (an cB) 0 [TO_exec 1 false (exArgs true) [exX (Q_execute fne) rowsB cB] (obs cB)] = [] /\
+  plain_node_check exST 1 (an cB) 0 [TO_exec 1 true (exArgs true) [exX (Q_execute fne) rowsB cB] (obs cA)] = [] /\
+  (* a node that never announced columns (late statement): nothing to compare with *)
+  plain_node_check exST 1 (an []) 0 [TO_exec 1 false (exArgs true) [exX (Q_execute fne) rowsB cB] (obs cA)] = [].
+Proof. vm_compute. repeat split; reflexivity. Qed.
+
 Print Assumptions C14_transparent.
 Print Assumptions C14_direct.
 Print Assumptions C14_id_changed.
@@ -927,3 +968,4 @@ Print Assumptions C14_prep_accept_sound.
 Print Assumptions C14_batch_loop_unbounded.
 Print Assumptions C14_session_prep_accept_sound.
 Print Assumptions C14_cell_follows_reprepare.
+Print Assumptions C14_known_class_prepb_sound.
